@@ -7,6 +7,7 @@ package main
 // time is moved by backdating lastTime through the verif hook.
 
 import (
+	"context"
 	"errors"
 	"fmt"
 	"io"
@@ -24,6 +25,7 @@ func init() {
 	commands["pool-c13"] = func(w string) { runPool(w, "C13") }
 	commands["pool-c14"] = func(w string) { runPool(w, "C14") }
 	commands["pool-c15"] = func(w string) { runPool(w, "C15") }
+	commands["pool-c19"] = func(w string) { runPool(w, "C19") }
 }
 
 // ---- in-memory message pipe ----
@@ -123,6 +125,25 @@ func (s *Svc) Block(req *[]byte, res *[]byte) error {
 	return nil
 }
 
+// Hold is a stream handler: it learns its tag from the first message and reads until the stream ends.
+func (s *Svc) Hold(h *hStream) error {
+	var m []byte
+	if err := h.s.ReadMessage(nil, &m); err != nil {
+		return nil
+	}
+	k := 0
+	fmt.Sscanf(string(m), "hold:%d", &k)
+	s.w.mu.Lock()
+	s.w.holdConn[k] = s.connID
+	s.w.mu.Unlock()
+	for {
+		var x []byte
+		if err := h.s.ReadMessage(nil, &x); err != nil {
+			return nil
+		}
+	}
+}
+
 type srvState struct {
 	up   bool
 	gen  int
@@ -147,6 +168,7 @@ type world struct {
 	maxConns  int
 	dialViol  string
 	slowClose time.Duration
+	holdConn  map[int]int // stream tag -> connection its handler runs on
 }
 
 func (w *world) logServe(id int) {
@@ -246,20 +268,35 @@ type poolRun struct {
 	lastErr     error
 	everDead    map[int]bool
 	killedConns map[int]bool
+	streams     map[int]*heldStream
+	grabs       []*grabbed
+}
+
+type heldStream struct {
+	k, conn int
+	s       rpc.Stream
 }
 
 type heldTag struct{ conn, k int }
 
 type heldCall struct {
-	k    int
-	conn int
-	done chan error
-	res  *[]byte
+	k      int
+	conn   int
+	done   chan error
+	res    *[]byte
+	direct bool // made on a connection obtained earlier through the getConn hook, not through Transport.Call
+}
+
+// a connection a caller obtained from getConn and has not used yet
+type grabbed struct {
+	conn *rpc.Conn
+	id   int
+	addr string
 }
 
 func newPoolRun(e *Env, prop string, maxConns, maxIdle int, keepalive, idleto int64, naddr int) *poolRun {
-	w := &world{e: e, servers: map[string]*srvState{}, byConn: map[*rpc.Conn]int{}}
-	r := &poolRun{e: e, w: w, ids: map[uintptr]int{}, held: map[int]*heldCall{}, prop: prop, cfg: [4]int64{int64(maxConns), int64(maxIdle), keepalive, idleto}}
+	w := &world{e: e, servers: map[string]*srvState{}, byConn: map[*rpc.Conn]int{}, holdConn: map[int]int{}}
+	r := &poolRun{e: e, w: w, ids: map[uintptr]int{}, held: map[int]*heldCall{}, streams: map[int]*heldStream{}, prop: prop, cfg: [4]int64{int64(maxConns), int64(maxIdle), keepalive, idleto}}
 	for i := 0; i < naddr; i++ {
 		a := fmt.Sprintf("srv%d", i)
 		r.addrs = append(r.addrs, a)
@@ -575,7 +612,179 @@ func (r *poolRun) callEnd(k int) {
 	if err != nil && !r.killedConns[h.conn] {
 		r.e.fail("C15-busy-connection-closed", fmt.Sprintf("a call in flight on connection %d across housekeeping failed with %v", h.conn, err), r.replay())
 	}
+	if h.direct {
+		// no Transport.Call around it: lastTime is not refreshed and a failure is not reported to the pool
+		r.step(before, fmt.Sprintf("[OpStreamEnd %d]", h.conn), fmt.Sprintf("CallEnd (direct) conn %d -> %v", h.conn, err))
+		// the connection may be parked and long expired: housekeeping reclaims it at its next round,
+		// which is made a step of its own here
+		r.tick()
+		return
+	}
 	r.step(before, fmt.Sprintf("[OpCallEnd %d %s]", h.conn, coqBool(err == rpc.ErrShutdown)), fmt.Sprintf("CallEnd conn %d -> %v", h.conn, err))
+}
+
+// getConn alone: the caller holds the connection and makes its call later, so housekeeping can run
+// in between (the window in which a connection that looks unused is about to be used)
+func (r *poolRun) grab(a string) {
+	before := r.before()
+	ok := r.up(a)
+	c, err := r.t.VerifGetConn(a)
+	if err != nil {
+		r.step(before, fmt.Sprintf("[OpCall %d %s None %s false]", r.addrIdx(a), coqBool(ok), coqBool(err == rpc.ErrDial)), fmt.Sprintf("Get %s -> %v", a, err))
+		return
+	}
+	r.w.mu.Lock()
+	id := r.w.byConn[c]
+	r.w.mu.Unlock()
+	r.grabs = append(r.grabs, &grabbed{conn: c, id: id, addr: a})
+	r.step(before, fmt.Sprintf("[OpGet %d %s %s]", r.addrIdx(a), coqBool(ok), optNat(id)), fmt.Sprintf("Get %s -> conn %d", a, id))
+}
+
+// the caller that obtained a connection earlier now makes a call on it; the handler is held
+func (r *poolRun) beginOn(g *grabbed) {
+	r.w.mu.Lock()
+	closed := atomic.LoadInt32(&r.w.conns[g.id].closed) != 0
+	r.w.mu.Unlock()
+	if closed || r.killedConns[g.id] {
+		return // retired and closed, or its server went away, while the caller was holding it
+	}
+	before := r.before()
+	r.nheld++
+	h := &heldCall{k: r.nheld, conn: g.id, done: make(chan error, 1), res: new([]byte), direct: true}
+	req := []byte(fmt.Sprintf("held:%d", h.k))
+	go func() { h.done <- g.conn.Call("Svc.Block", &req, h.res) }()
+	for deadline := time.Now().Add(10 * time.Second); ; time.Sleep(200 * time.Microsecond) {
+		found := false
+		for _, w := range r.w.blockGate.list() {
+			if t := w.tag.(heldTag); t.k == h.k {
+				found = true
+			}
+		}
+		if found {
+			break
+		}
+		select {
+		case err := <-h.done:
+			r.step(before, "[]", fmt.Sprintf("BeginOn conn %d -> %v", g.id, err))
+			return
+		default:
+		}
+		if time.Now().After(deadline) {
+			r.e.fail("C14-call-hangs", "a call neither reached its handler nor failed", r.replay())
+			return
+		}
+	}
+	r.held[h.k] = h
+	r.step(before, fmt.Sprintf("[OpBeginOn %d]", g.id), fmt.Sprintf("BeginOn conn %d", g.id))
+}
+
+// a call through the Transport whose context expires while its handler is still running: the caller
+// gets the context's error at once; the pooled connection and the other calls on it are unharmed (C19)
+func (r *poolRun) ctxCall(a string, deadline bool) {
+	before := r.before()
+	ok := r.up(a)
+	r.nheld++
+	k := r.nheld
+	req := []byte(fmt.Sprintf("held:%d", k))
+	var res []byte
+	var ctx context.Context
+	var cancel context.CancelFunc
+	if deadline {
+		ctx, cancel = context.WithTimeout(context.Background(), 3*time.Millisecond)
+	} else {
+		ctx, cancel = context.WithCancel(context.Background())
+		go func() { time.Sleep(3 * time.Millisecond); cancel() }()
+	}
+	t0 := time.Now()
+	err := r.t.CallWithContext(ctx, a, "Svc.Block", &req, &res)
+	took := time.Since(t0)
+	cancel()
+	got := -1
+	ctxErr := err == context.DeadlineExceeded || err == context.Canceled
+	for dl := time.Now().Add(5 * time.Second); ctxErr && got < 0 && time.Now().Before(dl); time.Sleep(200 * time.Microsecond) {
+		for _, w := range r.w.blockGate.list() {
+			if t := w.tag.(heldTag); t.k == k {
+				got = t.conn
+				r.w.blockGate.release(w, nil)
+			}
+		}
+	}
+	switch {
+	case ctxErr:
+		if took > 2*time.Second {
+			r.e.fail("C19-ctx-not-prompt", fmt.Sprintf("CallWithContext through the Transport returned %v only after %v", err, took), r.replay())
+		}
+		time.Sleep(2 * time.Millisecond) // the late response is discarded
+		if got >= 0 && !r.killedConns[got] {
+			r.w.mu.Lock()
+			closed := atomic.LoadInt32(&r.w.conns[got].closed) != 0
+			r.w.mu.Unlock()
+			if closed {
+				r.e.fail("C19-ctx-error-closes-connection", fmt.Sprintf("a call given up at its context's end (%v) closed pooled connection %d, which other calls share", err, got), r.replay())
+			}
+		}
+		r.step(before, fmt.Sprintf("[OpCall %d %s %s false false]", r.addrIdx(a), coqBool(ok), optNat(got)), fmt.Sprintf("CtxCall %s -> %v", a, err))
+	default:
+		r.checkShutdownConsumed(a, err)
+		r.step(before, fmt.Sprintf("[OpCall %d %s None %s %s]", r.addrIdx(a), coqBool(ok), coqBool(err == rpc.ErrDial), coqBool(err == rpc.ErrShutdown)), fmt.Sprintf("CtxCall %s -> %v", a, err))
+	}
+	r.lastErr = nil
+}
+
+// open a stream through the Transport and keep it: the connection has one more occupant until the
+// stream is closed (the stream outlives Kill: a connection's stream table is not cleared when it dies)
+func (r *poolRun) streamOpen(a string) {
+	before := r.before()
+	ok := r.up(a)
+	r.nheld++
+	k := r.nheld
+	s, err := r.t.NewStream(a, "Svc.Hold")
+	if err != nil {
+		r.checkShutdownConsumed(a, err)
+		if err != rpc.ErrDial && err != rpc.ErrShutdown {
+			r.e.fail("C14-unexpected-error", fmt.Sprintf("NewStream to %s failed with %v", a, err), r.replay())
+		}
+		r.step(before, fmt.Sprintf("[OpCall %d %s None %s %s]", r.addrIdx(a), coqBool(ok), coqBool(err == rpc.ErrDial), coqBool(err == rpc.ErrShutdown)), fmt.Sprintf("StreamOpen %s -> %v", a, err))
+		r.lastErr = err
+		return
+	}
+	r.lastErr = nil
+	msg := []byte(fmt.Sprintf("hold:%d", k))
+	s.WriteMessage(&msg)
+	got := -1
+	for deadline := time.Now().Add(10 * time.Second); time.Now().Before(deadline); time.Sleep(200 * time.Microsecond) {
+		r.w.mu.Lock()
+		c, found := r.w.holdConn[k]
+		r.w.mu.Unlock()
+		if found {
+			got = c
+			break
+		}
+	}
+	if got < 0 {
+		r.e.fail("C09-message-lost", "the first message on a stream opened through the Transport never reached its handler", r.replay())
+		return
+	}
+	r.streams[k] = &heldStream{k: k, conn: got, s: s}
+	r.step(before, fmt.Sprintf("[OpStreamOpen %d %s %s]", r.addrIdx(a), coqBool(ok), optNat(got)), fmt.Sprintf("StreamOpen %s on conn %d", a, got))
+}
+
+// close a kept stream: on a live connection the close is acknowledged and the occupant leaves; on a
+// connection that has ended the close fails and the stream stays in the connection's table
+func (r *poolRun) streamClose(k int) {
+	h := r.streams[k]
+	delete(r.streams, k)
+	before := r.before()
+	err := h.s.Close()
+	if err == nil {
+		r.step(before, fmt.Sprintf("[OpStreamEnd %d]", h.conn), fmt.Sprintf("StreamClose conn %d", h.conn))
+		r.tick() // as for a direct call: the connection may have been spared only because of the stream
+	} else {
+		if !r.killedConns[h.conn] {
+			r.e.fail("C15-busy-connection-closed", fmt.Sprintf("closing a stream kept on connection %d across housekeeping failed with %v", h.conn, err), r.replay())
+		}
+		r.step(before, "[]", fmt.Sprintf("StreamClose conn %d -> %v", h.conn, err))
+	}
 }
 
 // kill the server of an address: the calls held on its connections end now
@@ -601,6 +810,10 @@ func (r *poolRun) kill(a string) {
 		case err = <-h.done:
 		case <-time.After(10 * time.Second):
 			r.e.fail("C03-held-call-hangs", "a call in flight did not return after its server went away", r.replay())
+		}
+		if h.direct {
+			ops = append(ops, fmt.Sprintf("OpStreamEnd %d", h.conn))
+			continue
 		}
 		ops = append(ops, fmt.Sprintf("OpCallEnd %d %s", h.conn, coqBool(err == rpc.ErrShutdown)))
 	}
@@ -719,10 +932,46 @@ func poolShape(tr []string) []string {
 }
 
 // script: a random walk; prop biases the choice of operations
+// busyFront: two connections are parked by housekeeping while callers hold them; the caller holding the
+// one at the front of the idle queue then makes a long call; the idle timeout passes
+func (r *poolRun) busyFront(a string) {
+	r.call(a, false)
+	r.call(a, false)
+	r.grab(a)
+	r.grab(a)
+	r.backdate(60) // past KeepAlive (41), short of IdleConnTimeout (91)
+	r.tick()
+	s := r.t.VerifSnapshot()
+	if os_getenv("VERIF_DEBUG") != "" {
+		fmt.Fprintf(os.Stderr, "busyFront: idle=%d active=%d cfg=%v\n", len(s.Idle[a]), len(s.Active[a]), r.cfg)
+	}
+	if len(s.Idle[a]) < 2 {
+		return
+	}
+	front := r.idOf(s.Idle[a][0])
+	for gi, g := range r.grabs {
+		if g.id == front {
+			r.grabs = append(r.grabs[:gi], r.grabs[gi+1:]...)
+			r.beginOn(g)
+			break
+		}
+	}
+	r.backdate(60) // now past IdleConnTimeout
+	r.tick()
+	for k, h := range r.held {
+		if h.direct {
+			r.callEnd(k)
+		}
+	}
+}
+
 func (r *poolRun) script(i int) {
 	e := r.e
 	steps := 10 + e.Rng.Intn(25)
 	afterRestart := map[string]int{}
+	if r.cfg[2] < r.cfg[3] && (i%2 == 0 || r.prop == "C15") { // KeepAlive < IdleConnTimeout: parked connections stay a while
+		r.busyFront(r.addrs[0])
+	}
 	for s := 0; s < steps && !r.closed; s++ {
 		a := r.addrs[e.Rng.Intn(len(r.addrs))]
 		x := e.Rng.Intn(100)
@@ -740,9 +989,32 @@ func (r *poolRun) script(i int) {
 					}
 				}
 			}
-		case x < 50:
+		case x < 47:
 			if len(r.held) < 3 {
 				r.callBegin(a)
+			}
+		case x < 49:
+			if len(r.grabs) < 2 {
+				r.grab(a)
+			} else {
+				g := r.grabs[0]
+				r.grabs = r.grabs[1:]
+				if len(r.held) < 3 {
+					r.beginOn(g)
+				}
+			}
+		case x < 52:
+			if len(r.streams) < 2 && r.up(a) {
+				r.streamOpen(a)
+			}
+		case x < 55:
+			if (r.prop == "C19" || e.Rng.Intn(2) == 0) && r.up(a) {
+				r.ctxCall(a, e.Rng.Intn(2) == 0)
+				break
+			}
+			for k := range r.streams {
+				r.streamClose(k)
+				break
 			}
 		case x < 60:
 			for c := range r.held {
